@@ -454,11 +454,11 @@ class CHECK(core.Check):
                "harness bookkeeping of what each verb does with the parsed options after its loop (defaults, abs/max/int, "
                "name -> inits, inode -> ioinits, native context, rx/tx host:port split)",
                "literal values: the C17 model; rounding by CPython float()"]
-    PARTIAL = ["C15_framer_partial (needs ¬d51Region; C15_framer_counterexample: defect D51)",
+    PARTIAL = ["C15_framer_partial (needs ¬d61Region; C15_framer_counterexample: defect D61)",
                "C15_do_asfound_partial (code as found, needs ¬d9Region; C15_do_asfound_counterexample: defect D9; "
                "C15_do is full for the repaired terminator list)",
                "C15_server_partial (needs the connectives present to be reserved words / not `in` when per / for "
-               "clauses are present; C15_server_d52, C15_server_d53: defects D52, D53)",
+               "clauses are present; C15_server_d62, C15_server_d63: defects D62, D63)",
                "C15_rear assumes `in frame <name>` with the name written (the documented syntax)",
                "the marker-need loop (`in frame` / `by`) is modelled and compared on all permutations, no theorem",
                "what each verb does with the parsed options after its loop is outside the model (harness bookkeeping)",
@@ -470,7 +470,7 @@ class CHECK(core.Check):
                   "in every order — instantiated per verb from 'the clause parses on its own': full for frame, do (repaired "
                   "list), aux (with trailing if), log, logger, rear (C15_frame, C15_buildFrame, C15_do, C15_aux, C15_log, "
                   "C15_logger, C15_rear); partial with the finding's region as hypothesis plus a proved counterexample for "
-                  "framer (D51), do as found (D9), server (D52, D53). The no-absorption lemmas cover parseRelation/"
+                  "framer (D61), do as found (D9), server (D62, D63). The no-absorption lemmas cover parseRelation/"
                   "parseIndirect (all relation forms), parseFields, parseDirect, the name loop of do. The model is tied to "
                   "building.py by running the real build methods on every permutation.")
     LEVEL_NOTE = ("Trusted: Lean kernel; propext, Classical.choice, Quot.sound; the hand transcription of the option loops and "
@@ -549,9 +549,9 @@ class CHECK(core.Check):
         return "%s:%d clauses:%s" % (case["verb"], len(case["clauses"]), "all-ok" if ok == len(out) else "all-err" if ok == 0 else "mixed")
 
     def region(self, finding, case):
-        """the Lean region predicates d9Region / d51Region / d52Region / d53Region, evaluated by the driver"""
+        """the Lean region predicates d9Region / d61Region / d62Region / d63Region, evaluated by the driver"""
         fid = finding.get("id")
-        verb_of = {"D9": "do", "D51": "framer", "D52": "server", "D53": "server"}
+        verb_of = {"D9": "do", "D61": "framer", "D62": "server", "D63": "server"}
         if fid not in verb_of or case["verb"] != verb_of[fid] or (fid == "D9" and self.fixed()):
             return False
         cls = ";".join(tok_hex(c) for c in case["clauses"]) or "-"
